@@ -40,6 +40,20 @@ theorem formA64_instr (mn : Txt) (ops : List ParseA64.Operand) (c : Option Txt) 
     Glue.formA64 (.instr mn ops c) =
       { mnemonic := some mn, comment := c, selOps := ops.map Glue.opdA64, operands := Glue.opndsA64 ops } := rfl
 
+/-- the key `Glue.keyA64` identifies an AArch64 operand under `==`: equal keys ⇒ equal on every field
+    `RegisterOperand.__eq__` (name, prefix, lanes, shape, index), `ImmediateOperand.__eq__` and `MemoryOperand.__eq__`
+    (offset, base, index register, scale, pre_indexed, post_indexed) compare (`Glue.eqViewA64` erases the fields they
+    do not read: the predication of a register, shift operator / amount of an index register); operands of the
+    classes without `__eq__` (identifier, condition code, prefetch operation) equal only the one at their own position -/
+theorem glue_a64_key_identifies (i j : Nat) (a b : ParseA64.Operand) (h : Glue.keyA64 i a = Glue.keyA64 j b) :
+    Glue.eqViewA64 a = Glue.eqViewA64 b ∨
+    (i = j ∧ ((∃ x y, a = .ident x ∧ b = .ident y) ∨ (∃ x y, a = .cond x ∧ b = .cond y) ∨
+              (∃ t g p t' g' p', a = .prf t g p ∧ b = .prf t' g' p'))) := Glue.keyA64_eq i j a b h
+
+/-- the matcher's view of the operands of an AArch64 instruction line is the operand-by-operand conversion -/
+theorem glue_a64_operands (mn : Txt) (ops : List ParseA64.Operand) (c : Option Txt) :
+    (Glue.formA64 (.instr mn ops c)).operands.map (·.p) = ops.map Glue.poperandA64 := glue_operands_a64 mn ops c
+
 /-! ### 1. `analyseA64` is the composition of the stage models -/
 
 /-- **e2e_a64_factors** (file level) -/
